@@ -105,7 +105,9 @@ def score_based_rule_with_tie_breaker(
         candidates = dispatcher.available_operations()
         for scoring_function in score_functions:
             scores = scoring_function(dispatcher)
-            best_score = max(scores)
+            best_score = max(
+                scores[operation.job_id] for operation in candidates
+            )
             candidates = [
                 operation
                 for operation in candidates
